@@ -176,7 +176,23 @@ impl SimNor {
 
     /// drain the log into a canonical string: `E@addr` / `W@addr:hex[!]` (`!` marks a needed 0->1)
     pub fn take_log(&mut self) -> String {
-        let v: Vec<String> = self.log.drain(..).map(|o| fmt_op(&o)).collect();
+        // runs of erases of consecutive blocks are written `E@start*count`
+        let ops: Vec<Op> = self.log.drain(..).collect();
+        let mut v: Vec<String> = vec![];
+        let mut i = 0;
+        while i < ops.len() {
+            if let Op::Erase(a) = ops[i] {
+                let mut k = 1;
+                while i + k < ops.len() && ops[i + k] == Op::Erase(a + k * self.bs) {
+                    k += 1;
+                }
+                v.push(if k == 1 { format!("E@{a:x}") } else { format!("E@{a:x}*{k}") });
+                i += k;
+            } else {
+                v.push(fmt_op(&ops[i]));
+                i += 1;
+            }
+        }
         v.join(",")
     }
 }
